@@ -1,0 +1,65 @@
+//go:build verif
+
+// Contracts for package decoration, checked by /verif (govc). Comment-only.
+
+package decoration
+
+//@ -- isAlign(a): a is unset or one of the three alignment values (N5)
+//@ spec isLeft(a Iface) bool = a == mkiface(type[align.alignSimple], box(align.Left))
+//@ spec isRight(a Iface) bool = a == mkiface(type[align.alignSimple], box(align.Right))
+//@ spec isCenter(a Iface) bool = a == mkiface(type[align.alignSimple], box(align.Center))
+//@ pred isAlign(a Iface) = a == nil || isLeft(a) || isRight(a) || isCenter(a)
+
+//@ func (WidthString).WithinWidthAligned
+//@   tags C04,C03,C09
+//@   requires [available-nonneg] available >= 0
+//@   requires [alignment-valid] isAlign(howAlign)
+//@   assigns nothing
+//@   ensures [no-line-is-blank-slot] ws.W < 0 ==> result == repeat(" ", available) @C04
+//@   ensures [left-pads-right] ws.W >= 0 && (howAlign == nil || isLeft(howAlign)) ==> result == cat(ws.S, repeat(" ", max(available - ws.W, 0))) @C04
+//@   ensures [right-pads-left] ws.W >= 0 && howAlign != nil && !isLeft(howAlign) && isRight(howAlign) ==> result == cat(repeat(" ", max(available - ws.W, 0)), ws.S) @C04
+//@   ensures [centre-odd-space-right] ws.W >= 0 && howAlign != nil && !isLeft(howAlign) && !isRight(howAlign) ==> result == cat(cat(repeat(" ", max(available - ws.W, 0) / 2), ws.S), repeat(" ", max(available - ws.W, 0) - max(available - ws.W, 0) / 2)) @C04
+//@   ensures [slot-is-column-wide] ws.W >= 0 && ws.W == W(ws.S) && ws.W <= available && (howAlign == nil || isLeft(howAlign) || isRight(howAlign)) ==> W(result) == available @C03
+
+//@ func (WidthString).WithinWidth
+//@   tags C04,C09
+//@   requires available >= 0
+//@   assigns nothing
+//@   ensures ws.W >= 0 ==> result == cat(ws.S, repeat(" ", max(available - ws.W, 0)))
+
+//@ -- widthsOK(ws): column widths are non-negative and small enough to add up
+//@ pred widthsOK(ws []int) = forall i int :: {ws[i]} 0 <= i && i < len(ws) ==> 0 <= ws[i] && ws[i] <= 1099511627776
+
+//@ func (*Decoration).ForColumnWidths
+//@   tags C03,C09
+//@   requires d != nil && widthsOK(widths) && len(widths) <= 1048576
+//@   assigns nothing
+//@   ensures result.colWidths === widths && result.decor == d && result.eol == ""
+//@   loop#1 invariant -1 <= rangeindex && rangeindex < len(widths) && 0 <= totalWidth && totalWidth <= 1 + len(widths) + (rangeindex + 1) * 1099511627778
+//@   loop#1 decreases len(widths) - rangeindex
+
+//@ func (*emitter).SetEOL
+//@   tags C03,C09
+//@   requires e != nil && -4611686018427387904 <= e.totalWidth && e.totalWidth <= 4611686018427387904
+//@   assigns e.totalWidth, e.eol
+//@   ensures e.eol == eol
+
+//@ func (emitter).commonTemplateLine
+//@   tags C03,C09
+//@   requires e.decor != nil && widthsOK(e.colWidths) && len(e.colWidths) <= 1048576
+//@   assigns new(string)
+//@   ensures [boxless-emits-no-rules] e.decor.isBoxless ==> result == "" @C03
+//@   loop#1 invariant -1 <= rangeindex && rangeindex < len(e.colWidths) && len(fields) == 1 + 2 * (rangeindex + 1) && cap(fields) >= 2 * len(e.colWidths) + 2 && fresh(fields)
+//@   loop#1 decreases len(e.colWidths) - rangeindex
+
+//@ -- dividersOK(ds, n): the divider set can be laid out around n columns (complete decoration, or boxless)
+//@ pred dividersOK(ds DividerSet, n int) = (ds.Right != "" && ds.Inner != "" ==> ds.Left != "" || n > 0) && (ds.Right == "" && ds.Inner != "" ==> ds.Left != "" || n > 0)
+
+//@ func (emitter).commonRenderedLine
+//@   tags C03,C04,C09
+//@   requires widthsOK(e.colWidths) && len(e.colWidths) <= 1048576 && len(cellStrs) >= len(e.colWidths) && len(colAligns) >= len(e.colWidths) && dividersOK(ds, len(e.colWidths))
+//@   requires [alignments-valid] forall i int :: {colAligns[i]} 0 <= i && i < len(colAligns) ==> isAlign(colAligns[i])
+//@   assigns new(string)
+//@   ensures true
+//@   loop#1 invariant -1 <= rangeindex && rangeindex < len(e.colWidths) && fresh(fields) && cap(fields) >= 2 * len(e.colWidths) + 1 && len(fields) == (ds.Left != "" ? 1 : 0) + (rangeindex + 1) * (ds.Inner != "" ? 2 : 1)
+//@   loop#1 decreases len(e.colWidths) - rangeindex
